@@ -70,6 +70,7 @@ Section CollInv.
   Proof.
     unfold ix_wf, new_index. destruct (cf_key (ix_config ix)) as [|kv k]; [discriminate|].
     destruct (columns (kv :: k)) as [cols| | | |]; cbn [bind]; try discriminate.
+    destruct (existsb (fun col => dollar_segment (fst col)) cols); [discriminate|].
     destruct ((0 <? cf_expiry (ix_config ix)) && (1 <? len (kv :: k))); [discriminate|].
     intro H. inversion H. reflexivity.
   Qed.
@@ -685,6 +686,7 @@ Section CollInv.
     assert (Hex : exists cols, ix0 = mkIndex cf cols []).
     { revert H. unfold new_index. destruct (cf_key cf) as [|kv k]; [discriminate|].
       destruct (columns (kv :: k)) as [cols| | | |]; cbn [bind]; try discriminate.
+      destruct (existsb (fun col => dollar_segment (fst col)) cols); [discriminate|].
       destruct ((0 <? cf_expiry cf) && (1 <? len (kv :: k))); [discriminate|].
       intro H. inversion H. eauto. }
     destruct Hex as [cols ->]. unfold ix_wf. simpl. auto.
